@@ -20,6 +20,7 @@ var idiomNames = []string{
 	"idiom-loopvar-modified", "idiom-named-results-order", "idiom-logical-side-effect",
 	"idiom-op-to-interface", "idiom-tuple-map-key", "idiom-redeclare-swap",
 	"idiom-append-alias", "idiom-struct-self-assign", "idiom-pointer-swap",
+	"idiom-named-result-fresh", "idiom-chan-recv", "idiom-assert-fail-zero",
 }
 
 func (g *Gen) idiomHelper(name, src string) {
@@ -170,6 +171,55 @@ func (g *Gen) idiomStmt(o *out, d int) {
 		o.line("\tfmt.Println(\"iv\", %s)", v)
 		o.line("\t%s = idVec{x: -%s.y, y: %s.x + %s.y, n: %s.n + \"!\"}", v, v, v, v, v)
 		o.line("\tfmt.Println(\"iv\", %s)", v)
+		o.line("}")
+	case 9: // a named result starts at zero, whatever the call is assigned to
+		g.idiomHelper("idAcc", "func idAcc(k int) (r int) {\n\tr += k\n\treturn\n}\n")
+		g.idiomHelper("idNz", "func idNz() (r int, s []int) {\n\tr++\n\ts = append(s, r)\n\treturn\n}\n")
+		x, xs := g.name("v"), g.name("v")
+		o.line("{")
+		o.line("\t%s := %d", x, a)
+		o.line("\t%s = idAcc(%d)", x, b)
+		o.line("\t%s = idAcc(%d)", x, c)
+		o.line("\tfmt.Println(\"ir\", %s)", x)
+		o.line("\t%s := []int{%d}", xs, b)
+		o.line("\t%s, %s = idNz()", x, xs)
+		o.line("\t%s, %s = idNz()", x, xs)
+		o.line("\tfmt.Println(\"ir\", %s, %s)", x, xs)
+		o.line("}")
+	case 10: // values received from a (buffered) channel are ordinary variables
+		ch, x, y, p, f := g.name("v"), g.name("v"), g.name("v"), g.name("v"), g.name("cl")
+		o.line("{")
+		o.line("\t%s := make(chan int, 4)", ch)
+		o.line("\t%s <- %d", ch, a)
+		o.line("\t%s <- %d", ch, b)
+		o.line("\t%s <- %d", ch, c)
+		o.line("\t%s <- %d", ch, a+b)
+		o.line("\t%s := <-%s", x, ch)
+		o.line("\t%s = %s + 1", x, x)
+		o.line("\t%s++", x)
+		o.line("\t%s := 0", y)
+		o.line("\t%s := &%s", p, y)
+		o.line("\t*%s = <-%s", p, ch)
+		o.line("\t%s := func() int { return <-%s }", f, ch)
+		o.line("\tfmt.Println(\"ih\", %s, %s, %s(), len(%s))", x, y, f, ch)
+		o.line("\t%s = <-%s", x, ch)
+		o.line("\t%s -= 2", x)
+		o.line("\tfmt.Println(\"ih\", %s, len(%s))", x, ch)
+		o.line("}")
+	case 11: // a failed comma-ok assertion sets its result to the zero value
+		n, k, ok, st := g.name("v"), g.name("v"), g.name("v"), g.name("v")
+		o.line("{")
+		o.line("\tvar %s interface{} = %d", n, a)
+		o.line("\tvar %s int", k)
+		o.line("\tvar %s bool", ok)
+		o.line("\tvar %s string", st)
+		o.line("\t%s, %s = %s.(int)", k, ok, n)
+		o.line("\tfmt.Println(\"it\", %s, %s)", k, ok)
+		o.line("\t%s, %s = interface{}(\"x\").(int)", k, ok)
+		o.line("\tfmt.Println(\"it\", %s, %s)", k, ok)
+		o.line("\t%s = \"s%d\"", st, b)
+		o.line("\t%s, %s = %s.(string)", st, ok, n)
+		o.line("\tfmt.Println(\"it\", len(%s), %s)", st, ok)
 		o.line("}")
 	default: // swaps through pointers and parentheses
 		p, q, x, y := g.name("v"), g.name("v"), g.name("v"), g.name("v")
